@@ -403,9 +403,13 @@ impl MessageType for ResponseHead {
         }
 
         // 1xx (other than 101) and 204 responses never have a body, whatever their headers
-        // say (RFC 7230 §3.3.3)
+        // say (RFC 7230 §3.3.3); neither does a 304 response, for which at least the HTTP/1.0
+        // read-to-eof fallback must not apply
         let bodiless = status != StatusCode::SWITCHING_PROTOCOLS
-            && (status.is_informational() || status == StatusCode::NO_CONTENT);
+            && (status.is_informational()
+                || status == StatusCode::NO_CONTENT
+                || (status == StatusCode::NOT_MODIFIED
+                    && matches!(length, PayloadLength::None)));
 
         // message payload
         let decoder = if bodiless {
